@@ -213,6 +213,9 @@ Step(m, order) ==
   /\ nextIdx' = m.ix + 1
   /\ paths' = paths \cup
        {IF len = 0 THEN "first-lifecycle-of-ecu" ELSE UpdateTag(L[len], m)}
+       \cup (IF m.kind # "ctrl" /\ MsgTs(m) > m.rx
+             THEN {IF len = 0 \/ Len(p1.L) > len THEN "new-lc-timestamp-beyond-reception-time" ELSE "upd-timestamp-beyond-reception-time"}
+             ELSE {})
        \cup (IF p1.removed /\ L[len - 1].id \in bufLcs /\ L[len].id \in bufLcs THEN {"merge-into-buffered-prev"} ELSE {})
        \cup (IF p1.removed /\ L[len - 1].id \in bufLcs /\ L[len].id \notin bufLcs THEN {"merge-confirmed-into-buffered-prev"} ELSE {})
        \cup (IF p1.removed /\ L[len - 1].id \notin bufLcs /\ L[len].id \in bufLcs THEN {"merge-into-confirmed-prev"} ELSE {})
